@@ -164,6 +164,13 @@ def main():
         pz.install(0xFF)
         pz.set_enabled(0)
     from harness import purity_routines as PR
+
+    def proc_state():
+        """the process-wide setting that decides whether later numerics return a value or raise: numpy's floating-point
+        error handling (a routine that leaves divide / invalid on 'raise' behind makes the NaN-cleaning routines of the
+        library fail for the rest of the process). Log levels and warning filters do not change results: not observed."""
+        return {"np.geterr": dict(np.geterr())}
+    state0 = proc_state()
     jobs = json.load(sys.stdin)
     out = []
     import faulthandler
@@ -241,6 +248,10 @@ def main():
             faulthandler.cancel_dump_traceback_later()
             if pz:
                 pz.set_enabled(0)
+            st = proc_state()
+            if st != state0:
+                rec["process_state_changed"] = {k: [state0[k], st[k]] for k in st if st[k] != state0[k]}
+                np.seterr(**state0["np.geterr"])
         out.append(rec)
     with open(sys.argv[3], "w") as fh:
         json.dump(out, fh)
